@@ -287,6 +287,8 @@ type vArrMarshaler struct {
 	strs  []string
 	objs  []*vObjMarshaler
 	fail  bool
+	// reflectFail: the last element is a reflected value that cannot be encoded
+	reflectFail bool
 }
 
 func (m *vArrMarshaler) MarshalLogArray(enc ArrayEncoder) error {
@@ -298,6 +300,11 @@ func (m *vArrMarshaler) MarshalLogArray(enc ArrayEncoder) error {
 	}
 	for _, o := range m.objs {
 		if err := enc.AppendObject(o); err != nil {
+			return err
+		}
+	}
+	if m.reflectFail {
+		if err := enc.AppendReflected(make(chan int)); err != nil {
 			return err
 		}
 	}
@@ -503,7 +510,12 @@ func vMakeField(id string, sel int, key string, ref *vRefEnc, cfg *EncoderConfig
 			arr.arr = append(arr.arr, sub)
 		}
 		ref.add(key, arr)
-		if m.fail {
+		if m.fail && vrt.Choice(id+".arrfail", 2) == 1 {
+			// the failure comes from an unencodable reflected element at the end of the array
+			m.fail, m.reflectFail = false, true
+			vrt.Tag("fault=array-reflected-element")
+			ref.add(key+"Error", &vExp{kind: xAnyStr})
+		} else if m.fail {
 			vrt.Tag("fault=array-error")
 			ref.add(key+"Error", xs("arr-failed"))
 		}
